@@ -10,7 +10,7 @@ from .fam_common import Bench
 INF = 99
 
 
-def run_scenario(scn: dict, *, maxbuf: int = 0, ns: int = 1, nr: int = 1, eager: bool = False, uv: bool = False) -> dict:
+def run_scenario(scn: dict, *, maxbuf: int = 0, ns: int = 1, nr: int = 1, wrap: bool = False, retry: bool = False, eager: bool = False, uv: bool = False) -> dict:
     from .replay import ensure_repo_on_path
     ensure_repo_on_path()
     import anyio
@@ -63,7 +63,8 @@ def run_scenario(scn: dict, *, maxbuf: int = 0, ns: int = 1, nr: int = 1, eager:
             t = act["t"]
             if t in b.tasks and b.tasks[t].done():
                 return True
-            b.rec.emit(ev="creq", t=t, kind="scope" if act["c"] == "cancel" else "native")
+            if act["c"] == "native" or not wrap:       # wrapped: the scope cancellation is shielded off
+                b.rec.emit(ev="creq", t=t, kind="scope" if act["c"] == "cancel" else "native")
             if act["c"] == "cancel":
                 b.scopes[t].cancel()
             else:
@@ -82,7 +83,16 @@ def run_scenario(scn: dict, *, maxbuf: int = 0, ns: int = 1, nr: int = 1, eager:
             st["R"][h] = r.clone()
 
     async def client(t: int, script: list) -> None:
-        k = 0
+        if wrap:
+            with anyio.CancelScope(shield=True), anyio.CancelScope():
+                await body(t, script)
+        else:
+            await body(t, script)
+
+    sent: dict[int, int] = {}           # items sent so far per task (survives a retry)
+
+    async def body(t: int, script: list) -> None:
+        k = sent.get(t, 0)
         for op in script:
             if op == "end":
                 break
@@ -92,6 +102,7 @@ def run_scenario(scn: dict, *, maxbuf: int = 0, ns: int = 1, nr: int = 1, eager:
             base, h = op[:-1], int(op[-1])
             if base == "send":
                 k += 1
+                sent[t] = k
                 item = 10 * t + k
                 b.rec.emit(ev="start", t=t, op="send", h=h, item=item)
                 try:
@@ -116,6 +127,7 @@ def run_scenario(scn: dict, *, maxbuf: int = 0, ns: int = 1, nr: int = 1, eager:
                     b.rec.emit(ev="end", t=t, op="recv", h=h, res="ok", item=item, **obs())
             elif base == "snw":
                 k += 1
+                sent[t] = k
                 send_nowait(t, h, 10 * t + k)
             elif base == "rnw":
                 recv_nowait(t, h)
@@ -141,7 +153,7 @@ def run_scenario(scn: dict, *, maxbuf: int = 0, ns: int = 1, nr: int = 1, eager:
     import warnings
     with warnings.catch_warnings():
         warnings.simplefilter("ignore", ResourceWarning)
-        out = b.run(setup, client, eager=eager, uv=uv, params={"maxbuf": maxbuf, "ns": ns, "nr": nr})
+        out = b.run(setup, client, eager=eager, uv=uv, retry=retry, params={"maxbuf": maxbuf, "ns": ns, "nr": nr, "wrap": wrap})
         st["S"].clear()
         st["R"].clear()
     return out
